@@ -6,19 +6,21 @@ import vlib
 META = {
     "property_id": "C07",
     "level": "proof",
-    "coq_targets": ["SetJudge.vo", "SetGenPrims.vo"],
-    "technique": "translator tie (set.go regenerated to Gallina every run, proved equal to the model) + Coq refinement proof: the list-backed model of set.go refines a membership predicate for every element type with decidable equality, every operation sequence and every map iteration order; in-kernel correspondence of model, abstract set and the real Set[T] on generated op sequences with full membership probes",
+    "coq_targets": ["SetJudge.vo", "SetGenPrims.vo", "Base/SetLoopTie.vo", "SetTieLemmas.vo", "SetHeapPrims.vo", "SetHeapModel.vo"],
+    "technique": "two translator ties (set.go regenerated to Gallina every run in value semantics and in store semantics with map identities, each proved equal to the hand-written model for all arguments by shape-independent tactics) + Coq refinement proof: the list-backed model of set.go refines a membership predicate for every element type with decidable equality, every operation sequence and every map iteration order; in-kernel correspondence of model, abstract set and the real Set[T] on generated op sequences with full membership probes",
     "design_ref": "DESIGN.md §4 C07",
     "level_text": "Proof: SetProofs.v shows for every element type T with a boolean equality reflecting =, every argument list (repeats, absent, empty) and every operation sequence from the nil set that the model of set/set.go keeps a duplicate-free key list, that Has/HasAny/Slice/Add/AddSet/Remove/RemoveSet are exactly all-members / some-member / each-member-once / union / difference with changed-flags true iff membership changed, for every order in which Go may range over a map, and that the whole run refines the abstract set (Props/C07.v, closed under the global context). The model is tied to the current source by running the real Set[int|string|struct] on generated sequences and judging every observation inside Coq against both the model and the abstract set.",
-    "level_note": "Trusted: Coq 8.16.1 kernel + vm_compute; the hand-written model's fidelity is checked (not proved) by the correspondence run; Go map semantics for comparable keys with reflexive == (no NaN keys: outside the quantifier); Go harness. No axioms.",
+    "level_note": "Trusted: Coq 8.16.1 kernel + vm_compute; the translator harness/cmd/xlate_set (its two renderings of set.go - value semantics and store semantics with map identities - are proved equal to the hand-written models on every run, for all arguments); Go map semantics for comparable keys with reflexive == (no NaN keys: outside the quantifier); range over a map = fold over its key list in an arbitrary order; Go harness. No axioms.",
 }
 
 TRUSTED = [
     "Coq 8.16.1 kernel and VM (vm_compute); no native_compute; no axioms (Print Assumptions: closed under the global context)",
     "hand-written model coq/theories/SetModel.v of set/set.go, tied by correspondence only",
     "Go map semantics for comparable keys whose == is reflexive",
+    "ranging over a map is modelled (model and both translator renderings) as a fold over the map's key list at loop entry, in an arbitrary order (order oracle: C07_run_oracle, C07_addset, C07_removeset); exact for loop bodies that delete at most the current key from, and insert only already present keys into, the map being ranged over - the case of s.AddSet(s) / s.RemoveSet(s) with the current bodies; the correspondence run exercises both",
+    "store rendering (harness/cmd/xlate_set -part store): Set values are references into a heap, make allocates, assignments copy references, writes go to the location; a write to the nil map (a panic in Go) leaves the heap unchanged - the tie to the store-level operations of SetHeapModel.v, which allocate before writing, excludes it",
     "Go harness harness/cmd/c07 (generator, element->index mapping, probes), Go 1.23 toolchain",
-    "translator harness/cmd/xlate_set (go/parser -> Gallina over the map primitives of SetGenPrims.v for Make/Add/AddSet/Remove/RemoveSet/Has/HasAny; Slice and the codec methods are tied by correspondence only); validated by the correspondence run",
+    "translator harness/cmd/xlate_set + harness/internal/setxl (go/parser -> Gallina over the map and slice primitives of SetGenPrims.v for Make/Slice/Add/AddSet/Remove/RemoveSet/Has/HasAny and the helpers they call; a map copied into a local is an alias of the same map); its output is proved equal to the model for all arguments by coq/ties/Tie_C07.v (shape-independent tactics of Base/SetLoopTie.v, canonical forms of SetTieLemmas.v); the translator itself is validated by the correspondence run",
 ]
 
 HEADER = ("From Coq Require Import ZArith List Bool.\nImport ListNotations.\n"
@@ -97,10 +99,21 @@ def run(ctx):
         return
     quick = ctx.tier == "quick"
     tie_ok, tie_detail = ctx.translator_tie(
-        "xlate_set", ["-src", os.path.join(ctx.copy_repo(), "set", "set.go")], "SetGen", "Tie_C07")
+        "xlate_set", ["-part", "set", "-src", os.path.join(ctx.copy_repo(), "set", "set.go")], "SetGen", "Tie_C07")
     ctx.log("translator tie:", "OK" if tie_ok else "BROKEN", "-", tie_detail.splitlines()[0])
+    tie1 = ctx.cov.get("translator_tie")
+    # the same source once more with map identities (Set values = references into a heap): storage shared
+    # between two sets is expressible there; tied to the store-level operations of SetHeapModel.v
+    st_ok, st_detail = ctx.translator_tie(
+        "xlate_set", ["-part", "store", "-src", os.path.join(ctx.copy_repo(), "set", "set.go")], "SetStoreGen", "Tie_C07_store")
+    ctx.log("translator tie (store semantics):", "OK" if st_ok else "BROKEN", "-", st_detail.splitlines()[0])
+    ctx.cov["translator_tie"] = {"value_semantics": tie1 or {"status": "BROKEN"},
+                                 "store_semantics": ctx.cov.get("translator_tie") if st_ok else {"status": "BROKEN"}}
+    if not st_ok:
+        tie_detail = (tie_detail if not tie_ok else "") + "\n[store semantics] " + st_detail
+        tie_ok = False
     runs = [("corpus", ["-mode", "corpus"]),
-            ("random", ["-mode", "random", "-n", 600 if quick else 30000])]
+            ("random", ["-mode", "random", "-n", 800 if quick else 30000])]
     terms, jsons, err = vlib.harness_cases(ctx, binp, runs)
     if err:
         ctx.report({"unchecked": "harness run", "detail": err}, {"kind": "harness"}, failing_input=False)
@@ -110,7 +123,7 @@ def run(ctx):
         ctx.report({"unchecked": "in-kernel evaluation of the correspondence", "detail": err},
                    {"kind": "coq_eval"}, failing_input=False)
         return
-    mjs = multi(ctx, binp, 300 if quick else 15000)
+    mjs = multi(ctx, binp, 400 if quick else 15000)
     if not tie_ok and not ctx.violations:
         # a broken tie with a clean correspondence run: widen the search for a failing input
         t2, j2, err = vlib.harness_cases(ctx, binp, [("widen", ["-mode", "random", "-n", 3000, "-seed", ctx.seed + 7919])])
@@ -129,7 +142,7 @@ def run(ctx):
         if not ctx.violations:
             mjs += multi(ctx, binp, 1500, seed_offset=104729)
     if not tie_ok and not ctx.violations:
-        ctx.report({"unchecked": "translator tie coq/ties/Tie_C07.v against SetGen.v regenerated from set/set.go",
+        ctx.report({"unchecked": "translator ties coq/ties/Tie_C07.v / Tie_C07_store.v against SetGen.v / SetStoreGen.v regenerated from set/set.go",
                     "detail": tie_detail, "search": "widened correspondence run (%d sequences, %d programs) found no failing input" % (len(jsons), len(mjs))},
                    {"kind": "tie"}, failing_input=False)
     for i, code in sorted(bad, key=lambda x: (x[1], x[0])):   # failing inputs (code 1) first
@@ -190,38 +203,50 @@ def multi(ctx, binp, n, seed_offset=0):
 
 
 def minimise_multi(ctx, binp, j, code):
-    """delta-debug the program: shortest failing prefix, then drop single operations while the
-    re-executed program still fails"""
-    def fails(ops):
-        path = os.path.join(ctx.scratch, "mcand.jsonl")
+    """delta-debug the program on the real code: shortest failing prefix, then drop single operations while
+    the re-executed program still fails.  Every round executes and judges ALL its candidates in one batch
+    (one harness run, one in-kernel evaluation)."""
+    state = {"round": 0}
+
+    def batch(cands):
+        """cands: list of op lists -> list of (case json, code) for the failing ones, in order"""
+        if not cands:
+            return []
+        state["round"] += 1
+        path = os.path.join(ctx.scratch, "mcand_%d_%d.jsonl" % (ctx.nreplay, state["round"]))
         with open(path, "w") as f:
-            f.write(json.dumps({"kind": "multi/minimised", "elem": j["elem"], "universe": j["universe"],
-                                "vars": j["vars"], "mops": ops}) + "\n")
-        terms, js, err = vlib.harness_cases(ctx, binp, [("mcand", ["-mode", "multifile", "-in", path])])
+            for ops in cands:
+                f.write(json.dumps({"kind": "multi/minimised", "elem": j["elem"], "universe": j["universe"],
+                                    "vars": j["vars"], "mops": ops}) + "\n")
+        tag = "mcand%d_%d" % (ctx.nreplay, state["round"])
+        terms, js, err = vlib.harness_cases(ctx, binp, [(tag, ["-mode", "multifile", "-in", path])])
         if err:
-            return None
-        bad, _, err = ctx.judge_cases(HEADER, "mset_case", "mset_judge", terms, shard=10, tag="mcand")
-        if err or not bad:
-            return None
-        return js[0], bad[0][1]
+            return []
+        bad, _, err = ctx.judge_cases(HEADER, "mset_case", "mset_judge", terms, shard=60, tag=tag)
+        if err:
+            return []
+        return [(k, js[k], c) for k, c in sorted(bad)]
+
     ops = j["mops"]
-    best = None
-    for k in range(1, len(ops) + 1):
-        r = fails(ops[:k])
-        if r:
-            best, ops = r, ops[:k]
-            break
-    if not best:
+    hits = batch([ops[:k] for k in range(1, len(ops) + 1)])
+    if not hits:
         return j, code
-    i = 0
-    while i < len(ops) - 1 and len(ops) > 1:
-        cand = ops[:i] + ops[i + 1:]
-        r = fails(cand)
-        if r:
-            best, ops = r, cand
-        else:
-            i += 1
-    return best
+    k, best, bcode = hits[0]
+    ops = ops[:k + 1]
+    for _ in range(len(ops)):
+        n = len(ops) - 1                      # the last (failing) step stays
+        if n < 1:
+            break
+        cands, size = [], max(n // 2, 1)
+        while size >= 1:                      # drop chunks of n/2, n/4, ..., 1 operations
+            cands += [ops[:a] + ops[a + size:] for a in range(0, n, size) if a + size <= n]
+            size //= 2
+        hits = batch(cands)
+        if not hits:
+            break
+        k, best, bcode = min(hits, key=lambda h: len(cands[h[0]]))
+        ops = cands[k]
+    return best, bcode
 
 
 def hist(it):
